@@ -4,6 +4,7 @@ import (
 	"fmt"
 	"math/rand/v2"
 	"sort"
+	"strconv"
 	"strings"
 
 	"github.com/BondMachineHQ/BondMachine/pkg/bondmachine"
@@ -23,6 +24,9 @@ type ProcSpec struct {
 	DoubleIn  bool     // read the first input twice in a row (back-to-back i2rw)
 	InRegs    []int    // register that receives input j (default: register j); repeats allowed
 	Prog      []string // the assembled-from text (filled by Build)
+	// Rom: data words placed in the ROM after the program (Machine.Data.Vars); a body line may name
+	// the address of word k as @romK (what ro2rri reads through a register)
+	Rom []uint64 `json:",omitempty"`
 }
 
 // NetSpec is a whole machine: processors, external IO and bonds.
@@ -33,6 +37,10 @@ type NetSpec struct {
 	Outputs int
 	Bonds   [][2]string // {internal input endpoint, internal output endpoint}
 	Family  string
+	// SharedDomain: all processors are instances of ONE domain (one *procbuilder.Machine object,
+	// Processors = [0,0,...]), as a machine built from one CP definition instantiated several times;
+	// the specs of all processors must be equal (Procs[0] is the one that is built)
+	SharedDomain bool `json:",omitempty"`
 	// BuildOrder != 0: the machine is built with external inputs, external outputs and processors
 	// added in a shuffled order (see NewBMOrder)
 	BuildOrder uint64 `json:",omitempty"`
@@ -41,7 +49,11 @@ type NetSpec struct {
 func (n NetSpec) String() string {
 	var p []string
 	for i, ps := range n.Procs {
-		p = append(p, fmt.Sprintf("p%d{%s}", i, strings.Join(ps.Prog, "; ")))
+		rom := ""
+		if len(ps.Rom) > 0 {
+			rom = fmt.Sprintf(" rom=%v", ps.Rom)
+		}
+		p = append(p, fmt.Sprintf("p%d{%s%s}", i, strings.Join(ps.Prog, "; "), rom))
 	}
 	b := []string{}
 	for _, x := range n.Bonds {
@@ -49,8 +61,11 @@ func (n NetSpec) String() string {
 	}
 	sort.Strings(b)
 	order := ""
+	if n.SharedDomain {
+		order = " one-domain"
+	}
 	if n.BuildOrder != 0 {
-		order = fmt.Sprintf(" build-order=%d", n.BuildOrder)
+		order += fmt.Sprintf(" build-order=%d", n.BuildOrder)
 	}
 	return fmt.Sprintf("%s rsize=%d in=%d out=%d%s %s bonds[%s]", n.Family, n.Rsize, n.Inputs, n.Outputs, order, strings.Join(p, " "), strings.Join(b, " "))
 }
@@ -90,6 +105,12 @@ func (ps *ProcSpec) program() ([]string, []string) {
 		ops["r2owa"] = true
 	}
 	prog = append(prog, "j 0")
+	for i, l := range prog {
+		if k := strings.Index(l, "@rom"); k >= 0 {
+			w, _ := strconv.Atoi(l[k+4:])
+			prog[i] = l[:k] + strconv.Itoa(len(prog)+w)
+		}
+	}
 	var names []string
 	for o := range ops {
 		names = append(names, o)
@@ -116,9 +137,29 @@ func (n *NetSpec) Build() (*bondmachine.Bondmachine, error) {
 		if err := Assemble(m, prog); err != nil {
 			return nil, fmt.Errorf("p%d: %v", i, err)
 		}
+		if len(ps.Rom) > 0 && len(m.Program.Slocs) > 0 {
+			w := len(m.Program.Slocs[0])
+			for _, v := range ps.Rom {
+				b := strconv.FormatUint(v, 2)
+				if len(b) > w {
+					b = b[len(b)-w:]
+				}
+				m.Data.Vars = append(m.Data.Vars, strings.Repeat("0", w-len(b))+b)
+			}
+		}
+		if n.SharedDomain && i > 0 {
+			m = machs[0]
+		}
 		machs = append(machs, m)
 	}
-	return NewBMOrder(n.Rsize, machs, n.Inputs, n.Outputs, n.Bonds, n.BuildOrder), nil
+	bm := NewBMOrder(n.Rsize, machs, n.Inputs, n.Outputs, n.Bonds, n.BuildOrder)
+	if n.SharedDomain {
+		bm.Domains = bm.Domains[:1]
+		for i := range bm.Processors {
+			bm.Processors[i] = 0
+		}
+	}
+	return bm, nil
 }
 
 var arithPool = []string{"add", "mult", "inc", "dec", "cpy", "addp", "multp"}
